@@ -98,7 +98,7 @@ class Closure:
 
 class Frame:
     __slots__ = ('info', 'locals', 'enclosing', 'gen', 'first_arg', 'defcls', 'loop_counter', 'call_counter',
-                 'reduce_counter', 'reduce_site')
+                 'reduce_counter', 'reduce_site', 'join_counter', 'model_site')
 
     def __init__(self, info, locals_, enclosing, first_arg=None, defcls=None):
         self.info = info
@@ -111,6 +111,8 @@ class Frame:
         self.call_counter = 0
         self.reduce_counter = 0
         self.reduce_site = None
+        self.join_counter = 0
+        self.model_site = None
 
 
 class SuperProxy:
